@@ -12,6 +12,22 @@ def _lib():
     return data
 
 
+_LONG_LIVED = {}
+
+
+def _parser(kind):
+    """Long-lived parser objects, as an application would hold them: they
+    survive every mode switch of the process."""
+    if kind not in _LONG_LIVED:
+        from metomi.isodatetime import parsers
+        _LONG_LIVED[kind] = {
+            "rec": lambda: parsers.TimeRecurrenceParser(),
+            "tp": lambda: parsers.TimePointParser(assumed_time_zone=(0, 0)),
+            "dur": lambda: parsers.DurationParser(),
+        }[kind]()
+    return _LONG_LIVED[kind]
+
+
 def _tp(D, f):
     return D.TimePoint(num_expanded_year_digits=2, **f)
 
@@ -58,12 +74,10 @@ def execute(op):
             return [a < b, a <= b, a > b, a == b,
                     _jsonable(a.get_days_and_seconds()), a.get_seconds()]
         if kind == "recur":
-            from metomi.isodatetime import parsers
-            r = parsers.TimeRecurrenceParser().parse(op["text"])
+            r = _parser("rec").parse(op["text"])
             return [str(p) for p in itertools.islice(iter(r), op["k"])]
         if kind == "parse":
-            from metomi.isodatetime import parsers
-            p = parsers.TimePointParser(assumed_time_zone=(0, 0)).parse(op["text"])
+            p = _parser("tp").parse(op["text"])
             return [str(p), _jsonable(p.get_calendar_date()),
                     _jsonable(p.get_week_date())]
         if kind == "epoch":
